@@ -26,7 +26,8 @@ def probe_case(rng):
     v = lambda: ('num', rng.randint(0, 250))  # noqa
     kind = rng.choice(['file-label-leak-down', 'file-label-leak-up', 'file-const-leak-down', 'local-across-region',
                        'local-after-org', 'local-same-name-two-regions', 'file-same-name-two-files', 'local-before-any-label',
-                       'const-does-not-open-region', 'nested-leak'])
+                       'const-does-not-open-region', 'nested-leak', 'local-on-directive-line', 'local-on-directive-line',
+                       'region-opened-on-directive-line'])
     ref = lambda n: {'k': 'data', 'w': 2, 'vals': [('label', n)]}  # noqa
     A, B, C = [], [], []
     if kind == 'file-label-leak-down':       # includer defines _x, included file uses it -> must be rejected
@@ -48,6 +49,18 @@ def probe_case(rng):
     elif kind == 'local-after-org':
         A = [{'k': 'label', 'name': 'g1'}, {'k': 'label', 'name': '.l'}, {'k': 'data', 'w': 1, 'vals': [v()]},
              {'k': rng.choice(['org', 'memzone']), 'e': ('num', 100), 'z': 'GLOBAL'}, ref('.l')]
+    elif kind == 'local-on-directive-line':
+        # the directive closes the region even when the local label stands behind it on the same source line
+        A = [{'k': 'label', 'name': 'g1'}, {'k': 'data', 'w': 1, 'vals': [v()]},
+             {'k': rng.choice(['org', 'memzone']), 'e': ('num', 100), 'z': 'GLOBAL', 'join_next': True},
+             {'k': 'label', 'name': '.l', 'join_next': rng.random() < 0.5}, {'k': 'data', 'w': 1, 'vals': [v()]}] + \
+            rng.choice([[], [ref('.l')], [{'k': 'label', 'name': 'g2'}, ref('.l')]])
+    elif kind == 'region-opened-on-directive-line':
+        # ... and a non-local label behind the directive opens a new one, again on the same line
+        A = [{'k': 'label', 'name': 'g1'}, {'k': 'label', 'name': '.l'}, {'k': 'data', 'w': 1, 'vals': [v()]},
+             {'k': rng.choice(['org', 'memzone']), 'e': ('num', 100), 'z': 'GLOBAL', 'join_next': True},
+             {'k': 'label', 'name': 'g2', 'join_next': True}, {'k': 'label', 'name': '.l', 'join_next': rng.random() < 0.5},
+             {'k': 'data', 'w': 1, 'vals': [v()]}, ref('.l')]
     elif kind == 'local-same-name-two-regions':   # fine: each resolves to its own
         A = [{'k': 'label', 'name': 'g1'}, {'k': 'label', 'name': '.l'}, ref('.l'), {'k': 'label', 'name': 'g2'},
              {'k': 'data', 'w': 1, 'vals': [v()]}, {'k': 'label', 'name': '.l'}, ref('.l')]
